@@ -150,7 +150,21 @@ def enc_case(c) -> str:
     h = c["handler"]
     hs = "s:" + enc_resp(h[1]) if h[0] == "s" else h[0]
     parts = []
+    evs = []
+    pending = None
     for e in c["evs"]:
+        if e[0].endswith("!"):
+            if pending is not None:
+                evs.append(pending)
+            pending = [e[0][:-1]] + list(e[1:])
+        else:
+            evs.append(e)
+            if pending is not None:
+                evs.append(pending)
+                pending = None
+    if pending is not None:
+        evs.append(pending)
+    for e in evs:
         k = e[0]
         if k == "d":
             parts.append("d:" + (e[1] or "-"))
@@ -291,8 +305,22 @@ async def run_conn(loop: VLoop, c, middleware=None, upload_handler=None, handler
     lost = False
     lens: list[int] = []
     p.connection_made(t)
-    for e in c["evs"]:
+    queue = [list(e) for e in c["evs"]]
+    qi = 0
+    while qi < len(queue):
+        e = queue[qi]
+        qi += 1
         k = e[0]
+        racy = k.endswith("!")
+        if racy:
+            k = k[:-1]
+            gk = {"ua": "u", "ur": "u", "ha": "h", "hr": "h", "ma": "m", "md": "m", "mr": "m", "mn": "m"}[k]
+            if gk not in gates or gates[gk].done() or qi >= len(queue):
+                # no task to finish right now: the event simply happens after the next one
+                if qi < len(queue):
+                    queue.insert(qi + 1, [k] + e[1:])
+                    continue
+                racy = False
         try:
             if k == "d":
                 # asyncio never delivers data after connection_lost, nor after transport.close()
@@ -336,7 +364,12 @@ async def run_conn(loop: VLoop, c, middleware=None, upload_handler=None, handler
                         g.set_exception(OSError("disk\nfull"))
         except Exception as ex:  # an exception escaping a protocol callback reaches the event loop
             log["exc"].append(f"{type(ex).__name__}: {ex}"[:120])
-        await _drain()
+        if racy:
+            # one loop iteration only: the awaiting task finishes and its done-callback is queued, but the next
+            # event (a read or a disconnect queued before it) is delivered first
+            await asyncio.sleep(0)
+        else:
+            await _drain()
         lens.append(len(t.acts))
     pending = [k for k, g in gates.items() if not g.done()]
     obs = {
@@ -347,6 +380,7 @@ async def run_conn(loop: VLoop, c, middleware=None, upload_handler=None, handler
         "timer": p.timeout_handle is not None,
         "order": list(log["order"]), "mwargs": list(log["mwargs"]), "hargs": list(log["hargs"]),
         "pending": pending, "exc": list(log["exc"]), "lost": lost, "lens": lens,
+        "racy": any(e[0].endswith("!") for e in c["evs"]),
         "awaiting": bool(getattr(p, "awaiting_titan_content", False)),
     }
     # tear down what the case left behind so that nothing fires during a later case on this loop
